@@ -4,6 +4,7 @@
 import Theorems.C03
 import Theorems.Typed
 import Theorems.Lazy
+import Theorems.IoRead
 
 namespace Amqp.Codec
 open Amqp.Gen.Codes
